@@ -1,6 +1,6 @@
 (* GENERATED FILE - DO NOT EDIT.  Regenerated on every run of the checks that depend on the configuration classes by
    /verif/translate/configs2coq.py (Python `ast`, fail-closed) from phasegen/locus.py, phasegen/lineage.py and
-   phasegen/state_space.py (StateSpace.alpha).
+   phasegen/state_space.py (StateSpace.alpha) and phasegen/demography.py (class Epoch).
    The equivalence with the hand-written model (outcome of model/Validate.v; matches_config / matches_linkage / alpha_vec of
    model/StateSpace.v) is proved in proofs/GenConfigsEquiv.v.
    Reading of the source: see the docstring of the translator. *)
@@ -58,3 +58,20 @@ Section Alpha.
     let alpha := map (fun ab => fst ab * snd ab) (combine pops loci) in
     map (fun a => odiv OP (oofN OP a) (oofN OP (sum_nat alpha))) alpha.
 End Alpha.
+
+(* Epoch.__init__ (compared with the expected text): the epoch OWNS copies of its dictionaries; names sorted; every ordered pair of
+   distinct populations without a migration rate gets the rate 0, appended in the order of the loops *)
+Definition Epoch_init (start_time : Q) (end_time : option Q) (pop_sizes : option (list (string * Q)))
+           (migration_rates : option (list (string * string * Q))) : epoch_val :=
+    let pop_sizes := match pop_sizes with None => [("pop_0"%string, 1%Q)] | Some d => d end in
+    let migration_rates := match migration_rates with None => [] | Some d => d end in
+    let ks := map fst pop_sizes in
+    let mig := fold_left (fun m p => fold_left (fun m q =>
+                 if negb (String.eqb p q) && negb (mig_in p q m) then m ++ [((p, q), 0%Q)] else m) ks m) ks migration_rates in
+    mkEpochVal start_time end_time pop_sizes (sort_strings ks) (length ks) mig.
+
+(* Epoch.__eq__ (and __hash__, which hashes exactly the two tuples compared): start and end time take no part *)
+Definition Epoch_eq (a b : epoch_val) : bool :=
+    list_eqb (fun x y => String.eqb (fst x) (fst y) && Qeq_bool (snd x) (snd y)) (ev_sizes a) (ev_sizes b) &&
+    list_eqb (fun x y => String.eqb (fst (fst x)) (fst (fst y)) && String.eqb (snd (fst x)) (snd (fst y)) && Qeq_bool (snd x) (snd y))
+             (ev_mig a) (ev_mig b).
